@@ -1,5 +1,8 @@
 """C20 - order statistics: stats.order_stats('c') and ('r') meet their
-definitions for symbolic coverage p and confidence c (n <= 6)."""
+definitions for symbolic coverage p and confidence c (n <= 6); ksingle, kdouble,
+_getr and the root-finding modes of order_stats are what the property says they
+are in terms of SciPy's special functions, taken as uninterpreted functions."""
+import itertools
 from fractions import Fraction
 from math import comb
 
@@ -16,12 +19,20 @@ PID = "C20"
 META = dict(
     level="other",
     stubs=["scipy.stats.binom.sf(k, n, q) / binom.ppf(x, n, q) / binom.cdf -> the exact binomial tail polynomial in q for concrete integer n, k "
-           "(ppf: smallest k whose cdf reaches x, found by solver-decided comparisons)", "np.broadcast/np.empty on scalars: NumPy's own"],
-    outside=["ksingle, kdouble, _getr (non-central t, chi-square, normal quantiles, Newton iteration on SciPy special functions): no code of pyYeti's to encode beyond argument passing",
-             "order_stats('n') and ('p') (regularised incomplete beta function, Brent root finding)", "n > 6, array broadcasting"],
-    assumptions=["0 < p < 1, 0 < c < 1, 1 <= r <= n <= 6; exact ties c(r) == c excluded from the extremality statement"],
-    reach_required=["c", "r"],
-    trusted_base=["z3 5.1 (nlsat)", "binomial tail polynomial"],
+           "(ppf: smallest k whose cdf reaches x, found by solver-decided comparisons)", "np.broadcast/np.empty on scalars: NumPy's own",
+           "k-factor kernels: norm.ppf, norm.cdf, nct.ppf, chi2.ppf, np.sqrt, np.exp, betainc -> uninterpreted functions (z3 EUF) with sqrt(x)^2 = x, sqrt, exp, chi2.ppf > 0 "
+           "and, for the monotonicity obligations only, ground instances of: quantile functions increase with the probability, nct.ppf increases with the non-centrality, sqrt increases",
+           "_getr inside kdouble -> uninterpreted r(n, p, tol) > 0 (its own code is a separate kernel)",
+           "scipy.optimize.brentq(f, a, b, args, xtol, rtol) -> returns x0 with |x0 - x*| <= xtol + rtol |x0| for some x* in [a, b] with f(x*) = 0 (SciPy's documented contract); defaults xtol=2e-12, rtol=4 eps",
+           "np.ceil -> the integer m with m-1 < x <= m; .astype(int) on symbolic values -> identity (AST hook)"],
+    outside=["numerical values of the k-factors (accuracy of SciPy's nct/chi2/norm, convergence of the Newton iteration of _getr beyond 4 steps, convergence to the normal quantile as n grows)",
+             "monotonicity of kdouble in the coverage p (a property of the solution r of the coverage equation, not of code)",
+             "order_stats('n'): that the bracket [a, b] found by doubling contains a sign change (a property of the incomplete beta function); more than 4 doublings; roots above 1000 (rtol term) or within 1e-9 of an integer",
+             "order_stats('c')/('r') for n > 7; broadcasting beyond one 2-element axis"],
+    assumptions=["0 < p < 1, 0 < c < 1, 1 <= r <= n <= 6 (7 thorough); exact ties c(r) == c excluded from the extremality statement",
+                 "k-factors: real n >= 2, 0 < p < p2 < 1, 0 < c < c2 < 1; _getr: 0 < tol <= 1e-3, at most 2 (4) Newton steps"],
+    reach_required=["c", "r", "ksingle-scalar", "ksingle-array", "kdouble-scalar", "kdouble-array", "getr-1", "getr-2", "n-search", "p-search"],
+    trusted_base=["z3 5.1 (nlsat, EUF)", "binomial tail polynomial", "SciPy's documented brentq contract"],
 )
 
 
@@ -114,6 +125,331 @@ def os_fn(n):
     return fn
 
 
+# ---------------------------------------------------------------------------
+# k-factors and the root-finding modes: SciPy's special functions become
+# uninterpreted functions (z3 EUF + real arithmetic); what is decided is the
+# code of pyYeti around them - which quantile of which distribution with which
+# arguments, scaling by root n, the Newton iteration of _getr, the bracket and
+# tolerance handed to brentq, the rounding to an integer, and that caller
+# arrays are left alone.
+
+R_ = z3.RealSort()
+Q = z3.Function("norm_ppf", R_, R_)
+PHI = z3.Function("norm_cdf", R_, R_)
+T = z3.Function("nct_ppf", R_, R_, R_, R_)
+CHI = z3.Function("chi2_ppf", R_, R_, R_)
+SQ = z3.Function("sqrt", R_, R_)
+EXP = z3.Function("exp", R_, R_)
+BETA = z3.Function("betainc", R_, R_, R_, R_)
+GR = z3.Function("getr", R_, R_, R_, R_)
+
+
+def _ew(fn, *args):
+    """elementwise with NumPy broadcasting over object arrays"""
+    if any(isinstance(a, np.ndarray) and a.ndim > 0 for a in args):
+        arrs = [a if isinstance(a, np.ndarray) else np.array(a, dtype=object) for a in args]
+        b = np.broadcast(*arrs)
+        out = np.empty(b.shape, dtype=object)
+        for i, t in enumerate(b):
+            out.flat[i] = fn(*t)
+        return out
+    args = [a.item() if isinstance(a, np.ndarray) else a for a in args]
+    return fn(*args)
+
+
+class Lib:
+    """the stand-ins of one path; every application is logged so that ground
+    instances of the functions' monotonicity can be added"""
+
+    def __init__(self, eng, max_exp=None, max_beta=None):
+        self.eng, self.apps, self.roots = eng, {}, []
+        self.max_exp, self.max_beta = max_exp, max_beta
+
+    def app(self, f, *args):
+        a = [z3.simplify(S.lift(x)) for x in args]
+        t = f(*a)
+        self.apps.setdefault(f.name(), []).append((a, t))
+        return S.SymR(t)
+
+    # scipy.stats / scipy.special / scipy.optimize stand-ins
+    def norm(self):
+        lib = self
+
+        class N:
+            ppf = staticmethod(lambda p: _ew(lambda x: lib.app(Q, x), p))
+            cdf = staticmethod(lambda x: _ew(lambda v: lib.app(PHI, v), x))
+        return N
+
+    def nct(self):
+        lib = self
+
+        class N:
+            ppf = staticmethod(lambda c, df, nc: _ew(lambda a, b, d: lib.app(T, a, b, d), c, df, nc))
+        return N
+
+    def chi2(self):
+        lib = self
+
+        class N:
+            ppf = staticmethod(lambda q, df: _ew(lambda a, b: lib._chi(a, b), q, df))
+        return N
+
+    def _chi(self, q, df):
+        t = self.app(CHI, q, df)
+        self.eng.assume(t.e > 0)
+        return t
+
+    def getr(self, n, prob, tol):
+        def one(a, b):
+            t = self.app(GR, a, b, tol)
+            self.eng.assume(t.e > 0)
+            return t
+        return _ew(one, n, prob)
+
+    def betainc(self, a, b, x):
+        if self.max_beta is not None and len(self.apps.get("betainc", [])) >= self.max_beta:
+            raise E.PathAbort()
+        t = self.app(BETA, a, b, x)
+        return t
+
+    def brentq(self, f, a, b, args=(), xtol=2e-12, rtol=8.881784197001252e-16, maxiter=100, full_output=False, disp=True):
+        eng = self.eng
+        xs, x0 = eng.fresh("root"), eng.fresh("brentq")
+        fa, fb = f(a, *args), f(b, *args)
+        eng.assume(z3.And(xs >= S.lift(a), xs <= S.lift(b)))
+        eng.assume(S.lift(f(S.SymR(xs), *args)) == 0)
+        xt, rt = S.lift(xtol), S.lift(rtol)
+        ax0 = z3.If(x0 >= 0, x0, -x0)
+        eng.assume(z3.And(x0 - xs <= xt + rt * ax0, xs - x0 <= xt + rt * ax0))
+        self.roots.append(dict(xs=xs, x0=x0, fa=S.lift(fa), fb=S.lift(fb), xtol=xt, rtol=rt, a=S.lift(a), b=S.lift(b)))
+        return S.SymR(x0)
+
+    def monotone(self):
+        """ground instances, for the applications seen on this path, of: quantile functions increase with the probability;
+        the non-central t quantile increases with the non-centrality; sqrt increases; exp is positive"""
+        A = self.eng.assume
+        for (a1, t1), (a2, t2) in itertools.permutations(self.apps.get("norm_ppf", []), 2):
+            A(z3.Implies(a1[0] < a2[0], t1 < t2))
+        for (a1, t1), (a2, t2) in itertools.permutations(self.apps.get("sqrt", []), 2):
+            A(z3.Implies(a1[0] < a2[0], t1 < t2))
+        for (a1, t1), (a2, t2) in itertools.permutations(self.apps.get("chi2_ppf", []), 2):
+            A(z3.Implies(z3.And(a1[1] == a2[1], a1[0] < a2[0]), t1 < t2))
+        for (a1, t1), (a2, t2) in itertools.permutations(self.apps.get("nct_ppf", []), 2):
+            same = a1[1] == a2[1]
+            A(z3.Implies(z3.And(same, a1[0] <= a2[0], a1[2] <= a2[2]), t1 <= t2))
+            A(z3.Implies(z3.And(same, a1[0] < a2[0], a1[2] <= a2[2]), t1 < t2))
+            A(z3.Implies(z3.And(same, a1[0] <= a2[0], a1[2] < a2[2]), t1 < t2))
+
+
+class NPK(NPProxy):
+    def __init__(self, lib):
+        NPProxy.__init__(self)
+        self.lib = lib
+
+    def asarray(self, a, dtype=None, **kw):
+        if S.is_sym(a) or (isinstance(a, np.ndarray) and a.dtype == object):
+            return a
+        return np.asarray(a, dtype=dtype, **kw)
+
+    def _sqrt1(self, x):
+        if not S.is_sym(x):
+            return np.sqrt(x)
+        t = self.lib.app(SQ, x)
+        self.lib.eng.assume(z3.And(t.e > 0, t.e * t.e == x.e))
+        return t
+
+    def sqrt(self, a):
+        return _ew(self._sqrt1, a)
+
+    def _exp1(self, x):
+        if not S.is_sym(x):
+            return np.exp(x)
+        lib = self.lib
+        if lib.max_exp is not None and len(lib.apps.get("exp", [])) >= lib.max_exp:
+            raise E.PathAbort()
+        t = lib.app(EXP, x)
+        lib.eng.assume(t.e > 0)
+        return t
+
+    def exp(self, a):
+        return _ew(self._exp1, a)
+
+    def any(self, a):
+        if isinstance(a, np.ndarray):
+            vs = [v.e if isinstance(v, S.SymB) else z3.BoolVal(bool(v)) for v in a.ravel()]
+            return S.SymB(z3.Or(vs))
+        return a
+
+    def empty(self, shape, dtype=float, order="C"):
+        return np.empty(shape, dtype=object)
+
+    def _ceil1(self, x):
+        if not S.is_sym(x):
+            return np.ceil(x)
+        m = self.lib.eng.fresh("ceil", "Int")
+        self.lib.eng.assume(z3.And(m - 1 < x.e, x.e <= m))
+        return S.SymI(m)
+
+    def ceil(self, a):
+        return _ew(self._ceil1, a)
+
+
+def _stats(lib, *names, getr_stub=False):
+    """the named functions of pyyeti.stats recompiled from the current source over the stand-ins"""
+    import pyyeti.stats as st
+    from vsym import astload
+    g = dict(st.ksingle.__globals__)
+    g.update(np=NPK(lib), norm=lib.norm(), nct=lib.nct(), chi2=lib.chi2(), betainc=lib.betainc, brentq=lib.brentq, binom=Binom)
+    out = {}
+    for nm in names:
+        out[nm] = astload.load(getattr(st, nm), hooks=("astype",), globs=g)
+    if getr_stub:
+        g["_getr"] = lib.getr
+    return out
+
+
+def _sq(x):
+    return SQ(z3.simplify(x))
+
+
+def _unchanged(arr, saved):
+    return isinstance(arr, np.ndarray) and arr.shape == saved.shape and all(a is b for a, b in zip(arr.ravel(), saved.ravel()))
+
+
+def kfac_fn(which, mode):
+    def fn(eng):
+        S.set_engine(eng)
+        lib = Lib(eng)
+        f = _stats(lib, which, getr_stub=True)[which]
+        p, p2, c, c2, n, n2 = [z3.Real(x) for x in ("p", "p2", "c", "c2", "n", "n2")]
+        eng.assume(z3.And(0 < p, p < p2, p2 < 1, 0 < c, c < c2, c2 < 1, n >= 2, n2 >= 2))
+        info = dict(which=which, mode=mode)
+        tol = S.lift(1e-12)        # the default of kdouble, a double
+
+        def ref(pp, cc, nn):
+            if which == "ksingle":
+                return T(cc, nn - 1, _sq(nn) * Q(pp)) / _sq(nn)
+            return _sq((nn - 1) / CHI(1 - cc, nn - 1)) * GR(nn, pp, tol)
+        obls = []
+        try:
+            if mode == "scalar":
+                k = f(S.SymR(p), S.SymR(c), S.SymR(n))
+                kp = f(S.SymR(p2), S.SymR(c), S.SymR(n))
+                kc = f(S.SymR(p), S.SymR(c2), S.SymR(n))
+            else:
+                pa = np.array([S.SymR(p), S.SymR(p2)], dtype=object)
+                na = np.array([S.SymR(n), S.SymR(n2)], dtype=object)
+                ca = np.array([S.SymR(c)], dtype=object)
+                saved = [x.copy() for x in (pa, ca, na)]
+                k = f(pa, ca, na)
+        except E.Inconclusive:
+            raise
+        except Exception as ex:
+            import traceback
+            return [E.Obl("%s raises %r (%s)" % (which, ex, traceback.format_exc()[-300:]), False, info=info)]
+        eng.tag("%s-%s" % (which, mode))
+        what = {"ksingle": "the non-central t quantile nct.ppf(c, n-1, sqrt(n) z_p) scaled by 1/sqrt(n)",
+                "kdouble": "sqrt((n-1)/chi2.ppf(1-c, n-1)) r(n, p)"}[which]
+        if mode == "scalar":
+            obls.append(E.Obl("%s(p, c, n) is %s" % (which, what), S.lift(k) == ref(p, c, n), info=info))
+            lib.monotone()
+            if which == "ksingle":
+                obls.append(E.Obl("ksingle increases with the coverage p", S.lift(kp) > S.lift(k), info=info))
+            obls.append(E.Obl("%s increases with the confidence c" % which, S.lift(kc) > S.lift(k), info=info))
+        else:
+            ok = isinstance(k, np.ndarray) and k.shape == (2,)
+            obls.append(E.Obl("%s on broadcast arrays returns one factor per element" % which, ok, info=info))
+            if ok:
+                obls.append(E.Obl("%s(array)[0] is %s of element 0" % (which, what), S.lift(k[0]) == ref(p, c, n), info=info))
+                obls.append(E.Obl("%s(array)[1] is %s of element 1" % (which, what), S.lift(k[1]) == ref(p2, c, n2), info=info))
+            for nm, a, s0 in zip("pcn", (pa, ca, na), saved):
+                obls.append(E.Obl("%s leaves the caller's array `%s` unchanged" % (which, nm), _unchanged(a, s0), info=info))
+        return obls
+    return fn
+
+
+def getr_fn(kmax):
+    def fn(eng):
+        S.set_engine(eng)
+        lib = Lib(eng, max_exp=2 * kmax)
+        f = _stats(lib, "_getr")["_getr"]
+        n, prob, tol = z3.Real("n"), z3.Real("p"), z3.Real("tol")
+        eng.assume(z3.And(n >= 2, prob > 0, prob < 1, tol > 0, tol <= z3.RealVal("1e-3")))
+        info = dict(which="_getr", mode="scalar", kmax=kmax)
+        try:
+            r = f(S.SymR(n), S.SymR(prob), S.SymR(tol))
+        except E.Inconclusive:
+            raise
+        except Exception as ex:
+            import traceback
+            return [E.Obl("_getr raises %r (%s)" % (ex, traceback.format_exc()[-300:]), False, info=info)]
+        k = len(lib.apps.get("exp", [])) // 2
+        eng.tag("getr-%d" % k)
+        # the Newton iteration for  Phi(1/sqrt(n) + r) - Phi(1/sqrt(n) - r) = p, written independently
+        sn = 1 / _sq(n)
+        spi = S.lift(1 / np.sqrt(2 * np.pi))
+        it = [Q(prob + (1 - prob) / 2) * (1 + 1 / (2 * n))]
+        for _ in range(k):
+            ro = it[-1]
+            hi, lo = sn + ro, sn - ro
+            it.append(ro - (PHI(hi) - PHI(lo) - prob) / (spi * (EXP(-(hi * hi) / 2) + EXP(-(lo * lo) / 2))))
+        ab = lambda x: z3.If(x >= 0, x, -x)
+        obls = [E.Obl("_getr returns the Newton iterate number %d of the coverage equation" % k, S.lift(r) == it[k], info=info)]
+        if k >= 1:
+            obls.append(E.Obl("_getr stops only when the last Newton step is within tol", ab(it[k] - it[k - 1]) <= tol, info=info))
+        for j in range(1, k):
+            obls.append(E.Obl("_getr continues while the step %d exceeds tol" % j, ab(it[j] - it[j - 1]) > tol, info=info))
+        return obls
+    return fn
+
+
+NEAR = "1e-9"     # roots closer than this to an integer are outside the extremality claim (conditioning allowance)
+
+
+def root_fn(which, nn, r):
+    """order_stats('n'): nn is the number of bracket doublings explored; order_stats('p'): nn is n"""
+    def fn(eng):
+        S.set_engine(eng)
+        lib = Lib(eng, max_beta=(nn + 4) if which == "n" else None)
+        f = _stats(lib, "order_stats")["order_stats"]
+        p, c = z3.Real("p"), z3.Real("c")
+        eng.assume(z3.And(p > 0, p < 1, c > 0, c < 1))
+        info = dict(which=which, n=nn, r=r)
+        try:
+            if which == "n":
+                got = f("n", p=S.SymR(p), c=S.SymR(c), r=r)
+            else:
+                got = f("p", c=S.SymR(c), n=nn, r=r)
+        except E.Inconclusive:
+            raise
+        except Exception as ex:
+            import traceback
+            return [E.Obl("order_stats(%r) raises %r (%s)" % (which, ex, traceback.format_exc()[-300:]), False, info=info)]
+        obls = [E.Obl("order_stats(%r): one root search" % which, len(lib.roots) == 1, info=info)]
+        if len(lib.roots) != 1:
+            return obls
+        rt = lib.roots[0]
+        xs = rt["xs"]
+        got = got.item() if isinstance(got, np.ndarray) else got
+        near = z3.RealVal(NEAR)
+        if which == "n":
+            eng.tag("n-search")
+            # the function whose root is sought is 1 - c - (1 - I_{1-p}(r, n - r + 1)): confidence of rank r with n samples minus c
+            obls.append(E.Obl("order_stats('n'): the root sought is that of  c = I_(1-p)(r, n-r+1)", BETA(z3.RealVal(r), xs - r + 1, 1 - p) == c, info=info))
+            obls.append(E.Obl("order_stats('n'): brentq is asked for the root to within %s" % NEAR, z3.And(rt["xtol"] + rt["rtol"] * 1000 <= near), info=info))
+            m = S.lift(got)
+            obls.append(E.Obl("order_stats('n') is the smallest integer at or above the root (unless the root is within %s of an integer)" % NEAR,
+                              z3.Or(z3.And(m >= xs, m - 1 < xs), z3.And(xs - (m - 1) <= near, (m - 1) - xs <= near), z3.And(xs - m <= near, m - xs <= near), xs > 1000), info=info))
+        else:
+            eng.tag("p-search")
+            q = 1 - xs        # coverage at the exact root
+            obls.append(E.Obl("order_stats('p'): bracket [0, 1] has a sign change", z3.And(rt["a"] == 0, rt["b"] == 1, rt["fa"] * rt["fb"] <= 0), info=info))
+            obls.append(E.Obl("order_stats('p'): at the root the confidence of rank r is exactly c", tail(1 - q, nn, r) == c, info=info))
+            obls.append(E.Obl("order_stats('p') returns 1 - root to within 1e-9", z3.And(S.lift(got) - q <= near, q - S.lift(got) <= near), info=info))
+        return obls
+    return fn
+
+
 def replay(p):
     import pyyeti.stats as st
     from scipy.stats import binom
@@ -136,7 +472,110 @@ def replay(p):
     return False, "order_stats fine on the real code"
 
 
-REPLAY = {"order_stats": replay}
+def _fr(mdl, k, default):
+    v = mdl.get(k)
+    try:
+        return float(Fraction(v)) if v is not None else default
+    except Exception:
+        return default
+
+
+def replay_kfac(p):
+    """the solver's counterexample interprets the special functions freely; what it identifies is the path and the
+    obligation.  The real functions are then compared with SciPy's at the model's (p, c, n) and at a few fixed
+    alternates of the same path region."""
+    import pyyeti.stats as st
+    from scipy.stats import norm, nct, chi2
+    mdl = p["model"]
+    which = p["which"]
+    f = getattr(st, which)
+    n0 = max(2, int(np.ceil(_fr(mdl, "n", 5.0))))
+    pts = []
+    for pv in (_fr(mdl, "p", 0.3), 0.2, 0.9):
+        for cv in (_fr(mdl, "c", 0.3), 0.1, 0.9):
+            for nv in (n0, 7):
+                if 0 < pv < 1 and 0 < cv < 1:
+                    pts.append((pv, cv, nv))
+
+    def ref(pv, cv, nv):
+        if which == "ksingle":
+            return nct.ppf(cv, nv - 1, np.sqrt(nv) * norm.ppf(pv)) / np.sqrt(nv)
+        return np.sqrt((nv - 1) / chi2.ppf(1 - cv, nv - 1)) * st._getr(nv, pv, 1e-12)
+    msgs = []
+    for pv, cv, nv in pts:
+        got, want = f(pv, cv, nv), ref(pv, cv, nv)
+        if not abs(got - want) <= 1e-9 * max(1, abs(want)):
+            msgs.append("%s(%r, %r, %r) = %r, its definition gives %r" % (which, pv, cv, nv, got, want))
+        c2 = (cv + 1) / 2
+        if not f(pv, c2, nv) > got:
+            msgs.append("%s(%r, c, %r) does not increase from c=%r to c=%r" % (which, pv, nv, cv, c2))
+        p2 = (pv + 1) / 2
+        if which == "ksingle" and not f(p2, cv, nv) > got:
+            msgs.append("ksingle(p, %r, %r) does not increase from p=%r to p=%r" % (cv, nv, pv, p2))
+    pa, ca, na = np.array([0.3, 0.95]), np.array([0.8]), np.array([n0, 9])
+    sv = [x.copy() for x in (pa, ca, na)]
+    ka = f(pa, ca, na)
+    for nm, a, b in zip("pcn", (pa, ca, na), sv):
+        if not np.array_equal(a, b):
+            msgs.append("%s changed the caller's array `%s` from %s to %s" % (which, nm, b.tolist(), a.tolist()))
+    want = [ref(sv[0][i], sv[1][0], sv[2][i]) for i in range(2)]
+    if np.shape(ka) != (2,) or not np.allclose(ka, want, rtol=1e-9):
+        msgs.append("%s on arrays = %s, elementwise definition %s" % (which, np.asarray(ka).tolist(), want))
+    if msgs:
+        return True, "; ".join(msgs[:3])
+    return False, "%s fine on the real code" % which
+
+
+def replay_getr(p):
+    import pyyeti.stats as st
+    from scipy.stats import norm
+    mdl = p["model"]
+    msgs = []
+    for nv in (max(2, int(np.ceil(_fr(mdl, "n", 5.0)))), 2, 30):
+        for pv in (_fr(mdl, "p", 0.3), 0.5, 0.99):
+            if not 0 < pv < 1:
+                continue
+            r = st._getr(nv, pv, 1e-12)
+            res = norm.cdf(1 / np.sqrt(nv) + r) - norm.cdf(1 / np.sqrt(nv) - r) - pv
+            if not abs(res) <= 1e-9:
+                msgs.append("_getr(%r, %r, 1e-12) = %r leaves the coverage equation with residual %.3e" % (nv, pv, r, res))
+    if msgs:
+        return True, "; ".join(msgs[:3])
+    return False, "_getr fine on the real code"
+
+
+def replay_root(p):
+    import pyyeti.stats as st
+    from scipy.stats import binom
+    msgs = []
+    if p["which"] == "n":
+        for pv in (0.9, 0.95, 0.99, 0.5, 0.75):
+            for cv in (0.5, 0.6, 0.75, 0.9, 0.95, 0.99):
+                for r in (1, 2, 3, 5):
+                    got = int(st.order_stats("n", p=pv, c=cv, r=r))
+                    n = r
+                    while binom.sf(r - 1, n, 1 - pv) < cv and n < 100000:
+                        n += 1
+                    # a root within 1e-9 of an integer is outside the claim
+                    edge = abs(binom.sf(r - 1, n, 1 - pv) - cv) < 1e-9 or (n > r and abs(binom.sf(r - 1, n - 1, 1 - pv) - cv) < 1e-9)
+                    if got != n and not edge:
+                        msgs.append("order_stats('n', p=%r, c=%r, r=%d) = %d, the smallest sample size meeting the confidence is %d" % (pv, cv, r, got, n))
+    else:
+        for n in (p.get("n", 5), 10, 59):
+            for cv in (_fr(p["model"], "c", 0.5), 0.9, 0.25):
+                for r in (1, 2, min(3, n)):
+                    if not 0 < cv < 1:
+                        continue
+                    got = st.order_stats("p", c=cv, n=n, r=r)
+                    back = binom.sf(r - 1, n, 1 - got)
+                    if not abs(back - cv) <= 1e-8:
+                        msgs.append("order_stats('p', c=%r, n=%d, r=%d) = %r gives confidence %r" % (cv, n, r, got, back))
+    if msgs:
+        return True, "; ".join(msgs[:3])
+    return False, "order_stats(%r) fine on the real code" % p["which"]
+
+
+REPLAY = {"order_stats": replay, "kfac": replay_kfac, "getr": replay_getr, "root": replay_root}
 
 
 def job(n):
@@ -148,10 +587,35 @@ def job(n):
     return res
 
 
+def job_euf(kind, *args):
+    eng = E.Engine(obl_timeout_ms=60000)
+    eng.obl_mode = "each"
+    fn = {"kfac": kfac_fn, "getr": getr_fn, "root": root_fn}[kind](*args)
+    res = eng.explore(fn, max_cex=3)
+    res["note"] = "%s %s" % (kind, args)
+
+    def payload(c):
+        d = dict((c.get("info") or [{}])[0])
+        d["model"] = c["model"]
+        return d
+    H.triage(res, kind, REPLAY[kind], payload)
+    return res
+
+
 def jobs(tier, seed):
-    return [H.Job("order-stats-%d" % n, job, n, weight=n * n) for n in range(1, (5 if tier == "quick" else 7) + 1)]
+    q = tier == "quick"
+    out = [H.Job("order-stats-%d" % n, job, n, weight=n * n) for n in range(1, (5 if q else 7) + 1)]
+    for which in ("ksingle", "kdouble"):
+        for mode in ("scalar", "array"):
+            out.append(H.Job("%s-%s" % (which, mode), job_euf, "kfac", which, mode, weight=5))
+    out.append(H.Job("getr", job_euf, "getr", 2 if q else 4, weight=10))
+    for r in (1, 2) if q else (1, 2, 3, 5):
+        out.append(H.Job("n-search-r%d" % r, job_euf, "root", "n", 2 if q else 4, r, weight=5))
+    for n, r in ((3, 1), (4, 2)) if q else ((3, 1), (4, 2), (5, 5), (6, 3), (7, 1)):
+        out.append(H.Job("p-search-n%d-r%d" % (n, r), job_euf, "root", "p", n, r, weight=5))
+    return out
 
 
 def extra_coverage(results):
     import pyyeti.stats as st
-    return dict(functions_encoded=[H.fn_id(st.order_stats)])
+    return dict(functions_encoded=[H.fn_id(st.order_stats), H.fn_id(st.ksingle), H.fn_id(st.kdouble), H.fn_id(st._getr)])
